@@ -102,7 +102,9 @@ QUERY_VALUE_TEMPLATE = r"%s=([^&#]+)"
 # followed by a query
 HOSTNAME_LABEL = r"[^\s.:/?#@]+"
 SUBDOMAINS = r"(?:%s\.)*" % HOSTNAME_LABEL
-DOMAIN_TEMPLATE = r"^(?:https?:)?(?://)?(?:[^\s/?#@]*@)?%s(?:[:/?#]|\s*$)"
+# NOTE: a colon after the hostname must introduce a port, else the "hostname"
+# could be the user of "user:password@realhost"
+DOMAIN_TEMPLATE = r"^(?:https?:)?(?://)?(?:[^\s/?#@]*@)?%s(?::\d*)?(?:[/?#]|\s*$)"
 
 SCRIPT_TAG = r"<script\b[^<]*(?:(?!<\/script>)<[^<]*)*<\/script>"
 SCRIPT_TAG_BINARY = SCRIPT_TAG.encode()
